@@ -29,6 +29,14 @@ Lemma refuted_cycle :
   spec_verdict witness_cycle 1 (imp 1 1 0) = Some (VFound 3 0).
 Proof. vm_compute. repeat split. Qed.
 
+(* witness C: named import from an ES module without any export statement *)
+Lemma refuted_exportless :
+  all_esm witness_exportless = true /\ single_alias witness_exportless = true /\
+  indirect_acyclic witness_exportless = true /\ named_targets_export witness_exportless = false /\
+  link_verdict witness_exportless (seq 0 4) 1 (imp 1 3 0) = Some VOther /\
+  spec_verdict witness_exportless 1 (imp 1 3 0) = Some VNull.
+Proof. vm_compute. repeat split. Qed.
+
 Lemma statement_refuted : ~ resolve_is_spec_statement.
 Proof.
   apply (refuted_by witness_alias 1 (imp 1 1 0)); vm_compute; auto.
